@@ -28,8 +28,15 @@ def reference(geoms, values, arr, fill, all_touched):
     out = np.full((nt, nf), fill, dtype=float)
     amb = np.zeros((nt, nf), dtype=bool)   # centre exactly on a boundary: the burn rule of the library decides, not the property
     for g, v in zip(geoms, values):
-        shp = shapely.transform(geometry_to_shapely(g), lambda cs: np.array(
-            [[get_coord_index(arr, "time", x, raise_error=False), get_coord_index(arr, "frequency", y, raise_error=False)] for x, y in cs], dtype=float))
+        tc, fc = arr.coords["time"].values, arr.coords["frequency"].values
+
+        def index(c, x):   # written out here: independent of the library's own lookup
+            if x < c[0]:
+                return 0
+            if x > c[-1]:
+                return len(c)
+            return max(k for k in range(len(c)) if c[k] <= x)
+        shp = shapely.transform(geometry_to_shapely(g), lambda cs: np.array([[index(tc, x), index(fc, y)] for x, y in cs], dtype=float))
         for i in range(nt):
             for j in range(nf):
                 centre = shapely.Point(i + 0.5, j + 0.5)
@@ -50,8 +57,11 @@ def main():
         boxes = [data.BoundingBox(coordinates=[t0 + a * dt, f0 + b * df, t0 + c * dt, f0 + d * df])
                  for a, b, c, d in ((0, 0, nt - 1, nf - 1), (0.5, 0.5, max(0.6, nt - 1.5), max(0.6, nf - 1.5)), (0, 0, 0.4, 0.4), (1, 0, min(nt - 1, 2), min(nf - 1, 1)))
                  if a <= c and b <= d and c <= nt - 1 and d <= nf - 1 and nt > 0]
+        # geometries reaching beyond the last coordinate of either axis (clamped lookups), incl. a time-only geometry
+        beyond = [data.BoundingBox(coordinates=[t0, f0 + 0.5 * df, t0 + (nt + 3) * dt, f0 + (nf + 5) * df]),
+                  data.TimeInterval(coordinates=[t0 + 0.5 * dt, t0 + (nt + 2) * dt])]
         poly = [data.Polygon(coordinates=[[[t0, f0], [t0 + (nt - 1) * dt, f0], [t0 + (nt - 1) * dt / 2, f0 + (nf - 1) * df]]])] if nt > 1 and nf > 1 else []
-        cases = [([b], 1) for b in boxes] + [(poly, 2)] * bool(poly) + ([(boxes[:3], [1, 2, 3])] if len(boxes) >= 3 else [])
+        cases = [([b], 1) for b in boxes] + [(poly, 2)] * bool(poly) + ([(boxes[:3], [1, 2, 3])] if len(boxes) >= 3 else []) + [([g], 4) for g in beyond]
         for geoms, values in cases:
             for fill, at in ((0, False), (-1, False), (0, True)):
                 key = f"{nt}x{nf}:{dt}:{t0}:{order[0]}:{[g.coordinates for g in geoms]}:{values}:{fill}:{at}"
